@@ -30,7 +30,10 @@ Definition handle_field_eqb (a b : handle_field) : bool :=
 (* how FanoutCache.__init__ treats size_limit *)
 Inductive fanout_size_limit :=
 | SLAlwaysPassed       (* size_limit = settings.pop('size_limit', DEFAULT) / shards, passed to every shard always *)
-| SLWhenGiven.         (* passed only when the caller gave it *)
+| SLWhenGiven          (* passed only when the caller gave it *)
+| SLWhenGivenOrNew.    (* passed when the caller gave it, or when the shard is new (its database file does not exist before
+                          the open): a new shard gets the given or default total / shards; a shard that exists and is opened
+                          without the argument is given no size_limit at all and keeps the one stored in its Settings table *)
 
 (* layout of a value file name: os.urandom(n) in hex, split at a and b, suffix *)
 Record name_layout := { nl_random_bytes : Z; nl_split1 : Z; nl_split2 : Z; nl_suffix : list Z }.
